@@ -19,7 +19,11 @@ var defMkdirFull bool
 // mkdirFullSymptom: trigger = a Mkdir, or a Symlink whose target does not fit the inode, refused for lack of space;
 // symptom = e2fsck finds the name in the directory with an inode that was never written
 func mkdirFullSymptom(o op, refused error, fout string) bool {
-	if refused == nil || !isSpace(refused) {
+	if refused == nil {
+		return false
+	}
+	// Mkdir hides the cause of the refusal ("failed to create subdirectory <path>")
+	if !isSpace(refused) && !(o.kind == "mkdir" && strings.Contains(refused.Error(), "failed to create subdirectory")) {
 		return false
 	}
 	if o.kind != "mkdir" && !(o.kind == "symlink" && len(o.target) >= 60) {
